@@ -860,4 +860,49 @@ theorem peerOnce_cids (m : List (Nat × List (Nat × Nat))) :
   rfl
 
 
+/-! ### the Prop-level reading of the per-CID clauses -/
+
+theorem truthful_views (i : Input) (r : Rec) (hup : i.ipfsUp = true) (hc : r.consistent i.self = true) :
+    ∀ v, (v = status i r ∨ v = (listEntry i 0 r).getD stUnpinned) →
+      (r.settled = true →
+        (v = stPinned ↔ (r.expectedHere i.self = true ∧ r.held = true)) ∧
+        (v = stRemote ↔ r.elsewhere i.self = true) ∧
+        (v = stSharded ↔ r.isMetaPin = true) ∧
+        (v = stUnpinned ↔ r.inPinset = false) ∧
+        (isErr v = true ↔ (r.expectedHere i.self = true ∧ r.held = false))) ∧
+      (r.failed = true → isErr v = true) ∧
+      (v = stPinQueued → r.op = some ⟨.pin, .queued⟩) ∧ (v = stPinning → r.op = some ⟨.pin, .inProgress⟩) ∧
+      (v = stUnpinQueued → r.op = some ⟨.unpin, .queued⟩) ∧ (v = stUnpinning → r.op = some ⟨.unpin, .inProgress⟩) := by
+  have h := rec_check i r hup
+  simp only [recCheck, Bool.and_eq_true, Bool.or_eq_true, hc, Bool.not_true, Bool.false_eq_true, false_or] at h
+  obtain ⟨-, ⟨⟨⟨⟨⟨⟨⟨⟨⟨⟨⟨p1, p2⟩, r1⟩, r2⟩, s1⟩, s2⟩, u1⟩, u2⟩, e1⟩, e2⟩, q1⟩, q2⟩⟩ := h
+  intro v hv
+  have key : okPinned i r v = true ∧ okRemote i r v = true ∧ okSharded i r v = true ∧ okUnpinned i r v = true ∧
+      okError i r v = true ∧ okPending i r v = true := by
+    rcases hv with rfl | rfl
+    · exact ⟨p1, r1, s1, u1, e1, q1⟩
+    · exact ⟨p2, r2, s2, u2, e2, q2⟩
+  obtain ⟨kp, kr, ks, ku, ke, kq⟩ := key
+  clear p1 p2 r1 r2 s1 s2 u1 u2 e1 e2 q1 q2 hv
+  unfold okPinned at kp; unfold okRemote at kr; unfold okSharded at ks; unfold okUnpinned at ku
+  unfold okError at ke; unfold okPending at kq
+  refine ⟨?_, ?_, ?_⟩
+  · intro hs
+    have hnf : r.failed = false := by
+      simp only [Rec.settled, Bool.and_eq_true, Bool.not_eq_true'] at hs; exact hs.2
+    have hnp : r.pending = false := by
+      simp only [Rec.settled, Bool.and_eq_true, Bool.not_eq_true'] at hs; exact hs.1
+    rw [hs] at kp kr ks ku
+    rw [hnf, hnp] at ke
+    refine ⟨?_, ?_, ?_, ?_, ?_⟩
+    · cases h1 : r.expectedHere i.self <;> cases h2 : r.held <;> by_cases hv : v = stPinned <;> simp_all
+    · cases h1 : r.elsewhere i.self <;> by_cases hv : v = stRemote <;> simp_all
+    · cases h1 : r.isMetaPin <;> by_cases hv : v = stSharded <;> simp_all
+    · cases h1 : r.inPinset <;> by_cases hv : v = stUnpinned <;> simp_all
+    · cases h1 : r.expectedHere i.self <;> cases h2 : r.held <;> cases h3 : isErr v <;> simp_all
+  · intro hf
+    rw [hf] at ke
+    cases h3 : isErr v <;> simp_all
+  · refine ⟨?_, ?_, ?_, ?_⟩ <;> intro hv <;> subst hv <;> simp_all [stPinQueued, stPinning, stUnpinQueued, stUnpinning]
+
 end CV.C06
